@@ -54,6 +54,8 @@ class Peer:
         def user_boom(_handler, _message):
             raise RuntimeError("user callback failed")
 
+        self.user_boom = user_boom
+        self.user = set(USER_CALLBACKS)       # the user's callbacks registered right now
         for s, f in USER_CALLBACKS:
             self.rig.handler.register_stream_function(s, f, user_boom)
         self.rig.establish()
@@ -103,6 +105,26 @@ class Peer:
                 raise RuntimeError("the requester of our own S2F17 did not return")
         return replies, system_ok, header_ok
 
+    def change(self, op, s, f):
+        """the application changes its callback table while the link is up: through the handler's methods or through the documented
+        `handler.callbacks.sXXfYY = ...` attribute; the messages that follow are judged against the table as it is then"""
+        h = self.rig.handler
+        name = f"s{s:02d}f{f:02d}"
+        if op == "unreg":
+            h.unregister_stream_function(s, f)
+            self.user.discard((s, f))
+        elif op == "unreg_attr":
+            setattr(h.callbacks, name, None)
+            self.user.discard((s, f))
+        elif op == "reg":
+            h.register_stream_function(s, f, self.user_boom)
+            self.user.add((s, f))
+        elif op == "reg_attr":
+            setattr(h.callbacks, name, self.user_boom)
+            self.user.add((s, f))
+        else:
+            raise ValueError(op)
+
     def stop(self):
         self.rig.stop()
 
@@ -115,10 +137,14 @@ def run_history(host, msgs):
     peer = Peer(host)
     lits = []
     try:
-        for s, f, w, body in msgs:
+        for m in msgs:
+            if isinstance(m[0], str):
+                peer.change(*m[:3])
+                continue
+            s, f, w, body = m
             replies, sys_ok, hdr_ok = peer.send(s, f, w, body)
             lits.append("{| b_host := " + L.bool_(host) + f"; b_s := {L.z(s)}; b_f := {L.z(f)}; b_w := {L.bool_(w)}; b_replies := [" + ";".join(replies)
-                        + f"]; b_system_ok := {L.bool_(sys_ok)}; b_header_ok := {L.bool_(hdr_ok)}; b_user := {L.bool_((s, f) in USER_CALLBACKS)} |}}")
+                        + f"]; b_system_ok := {L.bool_(sys_ok)}; b_header_ok := {L.bool_(hdr_ok)}; b_user := {L.bool_((s, f) in peer.user)} |}}")
     finally:
         peer.stop()
     return lits
@@ -161,6 +187,21 @@ def gen_histories(rnd, tier):
     # the user's failing callbacks, with and without W-bit, in both roles
     for host in (False, True):
         hist.append((host, [(s, f, w, b"", "empty") for (s, f) in USER_CALLBACKS for w in (True, False)]))
+    # well-formed bodies whose free-format item (ECV of S2F15, V of S6F11 ...) is nested deeper than the interpreter recurses: whatever the decoder
+    # does with them, the primary is answered exactly once and the next message is handled normally
+    deep15 = bytes([1, 1, 1, 2, 0xB1, 4, 0, 0, 0, 1]) + common.nested_bytes(700)
+    deep13 = common.nested_bytes(700)
+    hist.append((False, [(2, 15, True, deep15, "deep"), (1, 1, True, b"", "valid"), (1, 3, True, deep13, "deep"), (99, 1, True, deep13, "deep"), (7, 3, True, deep15, "deep"), (1, 1, True, b"", "valid")]))
+    hist.append((True, [(6, 11, True, bytes([1, 3, 0xB1, 4, 0, 0, 0, 1, 0xB1, 4, 0, 0, 0, 2, 1, 1, 1, 2, 0xB1, 4, 0, 0, 0, 3, 1, 1]) + common.nested_bytes(700), "deep"),
+                        (5, 1, True, deep13, "deep"), (1, 1, True, b"", "valid")]))
+    # the callback table changes while the link is up: a callback that answered (failed) before is taken away - through the method or through
+    # the callbacks attribute - and put back; each message is answered according to the table at that moment
+    for host in (False, True):
+        seq = []
+        for (s, f) in [(99, 1), (1, 3), (13, 1), (2, 17)]:
+            seq += [(s, f, True, b"", "empty"), ("unreg_attr", s, f), (s, f, True, b"", "empty"), (s, f, True, b"", "empty"), ("reg", s, f), (s, f, True, b"", "empty"),
+                    ("unreg", s, f), (s, f, True, b"", "empty"), ("reg_attr", s, f), (s, f, True, b"", "empty"), (s, f, False, b"", "empty")]
+        hist.append((host, seq))
     return hist
 
 
@@ -217,7 +258,7 @@ def run(tier, replay=None):
         part = common.guarded(lambda host=host, msgs=msgs: run_history(host, [m[:4] for m in msgs]), repr([(host,) + m[:3] for m in msgs])[:2000], wedged, 120.0)
         if part is not None:
             lits += part
-            meta += [(host,) + m for m in msgs]
+            meta += [(host,) + m for m in msgs if not isinstance(m[0], str)]
     common.report_wedged(report, wedged, proof)
     bad, stats = evaluate(lits, "c08")
     known = {e["id"]: e for e in common.known_findings("C08") if e.get("status") == "open"}
